@@ -1,11 +1,19 @@
 (* C13 — every snapshot satisfies the documented ISD shape.  M = Model/Isd.v (isd), S = Spec/IsdShape.v: the
-   checker `shape_clauses` lists the clauses of doc/isd.md and of the property text, one boolean per clause.
-   Proved here, for EVERY document and rational time: clauses 0, 1, 2, 4, 7 and 10, and clause 6 on the regions
-   of the snapshot (the only elements that carry origin and position).  The remaining clauses
-   (3 content model, 5 rh/rw lengths — false of the faithful model for tts:disparity, see KNOWN_FINDINGS —,
-   8 no empty text / childless span, 9 collapsed white space) are not proved; they are
-   evaluated by the same checker on every snapshot the implementation and the model produce (harness/c13.py). *)
-From TT Require Import Model.Doc Gen.StyleTables Model.Isd Spec.IsdShape Proofs.C13.Shape Proofs.C13.Styles Proofs.C13.OriginPosition.
+   checker `shape_clauses` lists the clauses of doc/isd.md and of the property text, one boolean per clause;
+   `isd_shape` is their conjunction with no exception (units_except = [], skip_rp = false).
+   Proved here, for EVERY document and rational time: all eleven clauses, and their conjunction (C13_shape).
+   Clauses 0, 1, 2, 4, 7 need no hypothesis on the source.  Clauses 3, 6, 8, 9, 10 assume the source content model
+   (`doc_content_wf`: registered regions are regions, the body is a body, children of the kinds the parent class
+   accepts — nothing is asked of ruby / rtc containers, whose patterns are re-checked when the snapshot is built);
+   clause 5 assumes that properties which are not computed carry no length outside rh/rw (`doc_values_wf`; true of
+   every value StyleProperty.validate accepts).  Both are executable, are what C15 establishes for documents built
+   through the API, and are re-evaluated in Coq on every generated document by harness/c13.py.
+   Since the repairs `fix: tts:disparity was never computed ...` and `fix: text below a ruby delimiter (rp) got no
+   white-space pass ...` no clause carries an exception any more (formerly C13 recorded disparity-not-computed and
+   rp-whitespace-not-collapsed).  Document parameters and ownership of the Python objects are compared by the harness. *)
+From TT Require Import Model.Doc Gen.StyleTables Model.Isd Spec.IsdShape.
+From TT Require Import Proofs.C13.Shape Proofs.C13.Styles Proofs.C13.OriginPosition Proofs.C13.ContentModel Proofs.C13.NonEmpty
+                       Proofs.C13.WhiteSpace Proofs.C13.Units Proofs.C13.Summary.
 
 Theorem C13_no_timing : forall d t rs, isd d t = Ok rs -> nth 0 (shape_clauses [] false rs) false = true.
 Proof. exact snapshot_no_timing. Qed.
@@ -13,6 +21,10 @@ Theorem C13_no_animation : forall d t rs, isd d t = Ok rs -> nth 1 (shape_clause
 Proof. exact snapshot_no_anims. Qed.
 Theorem C13_no_region_refs : forall d t rs, isd d t = Ok rs -> nth 2 (shape_clauses [] false rs) false = true.
 Proof. exact snapshot_no_region_refs. Qed.
+(* regions at the top, each with at most one body; every element's children of the kinds its class accepts; ruby and rtc patterns *)
+Theorem C13_content_model : forall d t rs,
+  doc_content_wf d = true -> isd d t = Ok rs -> nth 3 (shape_clauses [] false rs) false = true.
+Proof. exact snapshot_content_model. Qed.
 (* each element carries only applicable style properties and, except br and text, all of them *)
 Theorem C13_styles_exact : forall d t rs, isd d t = Ok rs -> nth 4 (shape_clauses [] false rs) false = true.
 Proof. exact snapshot_styles_exact. Qed.
@@ -20,18 +32,66 @@ Proof. exact snapshot_styles_exact. Qed.
 Theorem C13_style_phase_complete : forall d t a par iv st,
   is_leaf_kind (e_kind a) = false -> style_phase d t a par iv = Ok st -> forall q, In q all_props -> shas st q = true.
 Proof. exact style_phase_complete. Qed.
+(* every length of every style value is in rh or rw — no property excepted *)
+Theorem C13_units : forall d t rs,
+  doc_values_wf d = true -> isd d t = Ok rs -> nth 5 (shape_clauses [] false rs) false = true.
+Proof. exact snapshot_units. Qed.
+(* ... because after the style phase every value of the element's style map is root relative, given a parent whose map is *)
+Theorem C13_style_phase_units : forall d t a par iv st,
+  forallb (fun kv => src_value_ok (fst kv) (snd kv)) (d_initials d) = true -> attrs_values_ok a = true -> par_ok par ->
+  style_phase d t a par iv = Ok st -> forall p, okv (sget st p) = true.
+Proof. exact style_phase_units. Qed.
+(* origin and position coincide on every region of a snapshot (position, when specified, overrides origin) ... *)
+Theorem C13_origin_position_regions : forall d t rs,
+  Forall (fun r => e_kind (eattrs r) = KRegion) (d_regions d) -> isd d t = Ok rs -> forallb origin_position_ok rs = true.
+Proof. exact snapshot_origin_position. Qed.
+(* ... and no other element of a snapshot is a region *)
+Theorem C13_origin_position : forall d t rs,
+  doc_content_wf d = true -> isd d t = Ok rs -> nth 6 (shape_clauses [] false rs) false = true.
+Proof. exact snapshot_origin_position_all. Qed.
 Theorem C13_no_display_none : forall d t rs, isd d t = Ok rs -> nth 7 (shape_clauses [] false rs) false = true.
 Proof. exact snapshot_no_display_none. Qed.
+(* no text node is empty, no span childless *)
+Theorem C13_nonempty : forall d t rs,
+  doc_content_wf d = true -> isd d t = Ok rs -> nth 8 (shape_clauses [] false rs) false = true.
+Proof. exact snapshot_nonempty. Qed.
+(* ... because _prune_empty_spans leaves nothing empty below the element it is run on, whatever was there *)
+Theorem C13_prune_clean : forall e, forallb (fun c => forallb nonempty_ok (all_elems c)) (echildren (prune_empty e)) = true.
+Proof. exact prune_clean. Qed.
+(* text whose parent is not xml:space=preserve has no tab / CR / LF and no two consecutive spaces — text below rp included *)
+Theorem C13_whitespace : forall d t rs,
+  doc_content_wf d = true -> isd d t = Ok rs -> nth 9 (shape_clauses [] false rs) false = true.
+Proof. exact snapshot_whitespace. Qed.
+(* ... because _process_lwsp leaves every node that is neither a br nor under preserve with a collapsed text *)
+Theorem C13_process_lwsp_collapses : forall l,
+  Forall2 (fun x t => ti_br x || ti_pre x || collapsed false t = true) l (process_lwsp l).
+Proof. exact process_lwsp_good. Qed.
 Theorem C13_empty_regions : forall d t rs,
   Forall (fun r => e_kind (eattrs r) = KRegion) (d_regions d) -> isd d t = Ok rs -> nth 10 (shape_clauses [] false rs) false = true.
 Proof. exact snapshot_empty_regions. Qed.
 
-(* origin and position coincide on every region of a snapshot (position, when specified, overrides origin) *)
-Theorem C13_origin_position_regions : forall d t rs,
-  Forall (fun r => e_kind (eattrs r) = KRegion) (d_regions d) -> isd d t = Ok rs -> forallb origin_position_ok rs = true.
-Proof. exact snapshot_origin_position. Qed.
+(* all clauses, no exception *)
+Theorem C13_shape : forall d t rs, doc_wf d = true -> isd d t = Ok rs -> isd_shape rs = true.
+Proof. exact snapshot_shape. Qed.
 
-Print Assumptions C13_origin_position_regions.
+(* the content model of doc/data_model.md on the whole source tree implies the content hypothesis *)
+Theorem C13_full_content_model_suffices : forall d,
+  forallb (fun r => kind_eqb (kind_of r) KRegion) (d_regions d) = true ->
+  match d_body d with None => true | Some b => kind_eqb (kind_of b) KBody && forallb children_ok (all_elems b) end = true ->
+  doc_content_wf d = true.
+Proof. exact full_content_model_suffices. Qed.
+
+(* the hypotheses are satisfiable: two regions (one timed, one animated), nested divisions, mixed xml:space, a line break,
+   an empty span, ruby with delimiters, lengths in all six units *)
+Example C13_wf_example : doc_wf ex_doc = true.
+Proof. exact ex_doc_wf. Qed.
+Example C13_snapshot_example : exists rs, isd ex_doc (inject_Z 2) = Ok rs /\ length rs = 1%nat /\ isd_shape rs = true.
+Proof. exact ex_doc_snapshot. Qed.
+
 Print Assumptions C13_no_timing.  Print Assumptions C13_no_animation.  Print Assumptions C13_no_region_refs.
-Print Assumptions C13_styles_exact.  Print Assumptions C13_style_phase_complete.  Print Assumptions C13_no_display_none.
-Print Assumptions C13_empty_regions.
+Print Assumptions C13_content_model.  Print Assumptions C13_styles_exact.  Print Assumptions C13_style_phase_complete.
+Print Assumptions C13_units.  Print Assumptions C13_style_phase_units.  Print Assumptions C13_origin_position_regions.
+Print Assumptions C13_origin_position.  Print Assumptions C13_no_display_none.  Print Assumptions C13_nonempty.
+Print Assumptions C13_prune_clean.  Print Assumptions C13_whitespace.  Print Assumptions C13_process_lwsp_collapses.
+Print Assumptions C13_empty_regions.  Print Assumptions C13_shape.  Print Assumptions C13_full_content_model_suffices.
+Print Assumptions C13_wf_example.  Print Assumptions C13_snapshot_example.
